@@ -1,3 +1,201 @@
-From Asynq Require Import Machine.
-Theorem C07_placeholder : True. Proof. exact I. Qed.
-Print Assumptions C07_placeholder.
+(* C07 - "Across all tasks of a thread, the active periods of asynq contexts are properly nested (whatever
+   was resumed last is paused first), so save-and-restore contexts compose.  Hence a value read from an
+   AsyncScopedValue inside any task is the one established by the innermost enclosing override in that
+   task or in the tasks awaiting it - exactly what the same code would read if run sequentially - and after
+   the computation ends, normally or with an error, every overridden value is back to what it was before."
+
+   Statements only; proofs in proofs/MachineC07.v, built on the C01/C06/C04 invariants of the scheduler
+   machine (Machine.v).
+
+   WHAT IS PROVED.  For every pointwise service P (no flush body raises half way), any flush order, batch
+   priorities, KEEP_DEPENDENCIES setting and fuel n, and every program p with
+     tree p   - yield-only task trees: Ret/Result/Raise, Yield of new futures (tasks, batch items, constant,
+                error and lazy futures, in nested tuples/lists/dicts), Enter/Exit of AsyncContext objects whose
+                resume/pause do not raise and of AsyncScopedValue.override(v); and
+     wn [] p  - every with-block is closed on every exit path, innermost first, and contexts open at the
+                same time in one task have distinct ids (what harness/lib/machprog.py emits for `with`),
+   as long as no exception unwound through asynq's frames (no_unwind: the MAX_TASK_STACK_SIZE guard did
+   not fire):
+
+   The ghost list [layers s] lists the (task, context) pairs whose contexts are active in state s: task by
+   task from the bottom of the scheduler's task stack to its top, inside a task in entry order; both kinds
+   of context (AsyncContext and override) are recorded.
+
+   C07_contexts_nest_lifo (T3): every machine step changes [layers] at its END only: it appends some
+     layers (a task's contexts are resumed in entry order, or a with-block is entered) or removes some
+     from the end (a task's contexts are paused in reverse order, or the innermost with-block is left).
+     So across all tasks whatever was resumed last is paused first.
+   C07_reads_see_enclosing_overrides (T2): whenever the body of a task t runs (mode MRun t q), every scoped
+     variable x has the value [apply_l init (layers s) x]: the value it had before the computation,
+     overridden by the override layers in order.  The layers are those of uncomputed tasks BELOW t on the
+     scheduler's task stack whose contexts are active (the tasks whose pending await led the scheduler to
+     t), followed by t's own open contexts in entry order - nothing else: no sibling, no finished task, no
+     task blocked on a batch contributes.  C07_reads_innermost: hence x has the value of the LAST override
+     layer for x - the innermost enclosing override in t, else in the nearest such task below t - or its
+     initial value when there is none.  This is what the same nesting of with-blocks gives when the
+     awaited code is run inline.
+   C07_values_restored (T1): at every flush point (mode MAfterExec: the _execute pass has ended, possibly
+     with suspended tasks inside with-blocks that are still open) and when the outermost call has
+     returned (MDone o, o a value or an error) every scoped variable is what it was before the computation.
+   C07_saved_values: at every reachable non-final configuration each active override instance holds, in
+     its saved-value slot (ci_old), exactly the value below it ([apply_l init pre var]), and the keys
+     (task, cid) of active layers are distinct; this is the save-and-restore composition invariant from
+     which the three theorems above follow.
+
+   C07_layer_owners_await: the owner u of every layer below t's own awaits t: t is reachable from u through
+     the dependency lists of uncompleted tasks (MachineC04.reach) - "the tasks awaiting it" of the property.
+     (Needs tree p only.)
+
+   WHAT IS NOT PROVED HERE (covered by the correspondence harness + monitors in harness/props/c07.py):
+   - programs that branch on ReadVar values, Let/Sync (synchronous re-entry through .value()), Probe,
+     NonAsyncContext (raises on pause/resume), AsyncContext objects whose resume()/pause() raise,
+     async_override of attributes, with-blocks left open when a task ends (generator.close() path of
+     complete_task), non-pointwise services, shared futures (DAGs), and runs in which the task-stack
+     guard fired;
+   - an end-to-end equation with a sequential evaluator for scoped values (Seq.eval has no variables; the
+     read theorem is stated on the machine state at the moments a task's code runs). *)
+From Asynq Require Import Machine Seq proofs.MachineC08 proofs.MachineC01 proofs.MachineC04 proofs.MachineC07.
+
+(* T1 *)
+Theorem C07_values_restored : forall P, pointwise P -> forall p, tree p -> wn [] p -> forall n,
+  let h := fst (create [] (FTask p) (st0 P)) in
+  let s1 := snd (create [] (FTask p) (st0 P)) in
+  no_unwind P n (start h s1) ->
+  (c_mode (run P n (start h s1)) = MAfterExec \/ exists o, c_mode (run P n (start h s1)) = MDone o) ->
+  forall x, var_get x (c_st (run P n (start h s1))) = var_get x s1.
+Proof. exact values_restored_tree. Qed.
+Print Assumptions C07_values_restored.
+
+(* T2 *)
+Theorem C07_reads_see_enclosing_overrides : forall P, pointwise P -> forall p, tree p -> wn [] p -> forall n t q,
+  let h := fst (create [] (FTask p) (st0 P)) in
+  let s1 := snd (create [] (FTask p) (st0 P)) in
+  no_unwind P n (start h s1) -> c_mode (run P n (start h s1)) = MRun t q ->
+  let s := c_st (run P n (start h s1)) in
+  (forall x, var_get x s = apply_l (fun x => var_get x s1) (layers s) x) /\
+  exists tk rest, get t s = Some (mkFut None (KTask tk)) /\ tk_cact tk = true /\ wn (tk_ctxs tk) q /\
+    tasks s = t :: rest /\ layers s = lower s rest ++ map (pair t) (tk_ctxs tk) /\
+    forall u c, In (u, c) (lower s rest) ->
+      In u rest /\ exists tku, get u s = Some (mkFut None (KTask tku)) /\ tk_cact tku = true /\ In c (tk_ctxs tku).
+Proof. exact reads_see_enclosing_overrides_tree. Qed.
+Print Assumptions C07_reads_see_enclosing_overrides.
+
+Theorem C07_reads_innermost : forall P, pointwise P -> forall p, tree p -> wn [] p -> forall n t q x,
+  let h := fst (create [] (FTask p) (st0 P)) in
+  let s1 := snd (create [] (FTask p) (st0 P)) in
+  no_unwind P n (start h s1) -> c_mode (run P n (start h s1)) = MRun t q ->
+  let s := c_st (run P n (start h s1)) in
+  (forall pre u cid v post, layers s = pre ++ (u, COverride cid x v) :: post ->
+     (forall l, In l post -> ovar (snd l) <> Some x) -> var_get x s = v) /\
+  ((forall l, In l (layers s) -> ovar (snd l) <> Some x) -> var_get x s = var_get x s1).
+Proof. exact reads_innermost_tree. Qed.
+Print Assumptions C07_reads_innermost.
+
+Theorem C07_layer_owners_await : forall P, pointwise P -> forall p, tree p -> forall n t q,
+  let h := fst (create [] (FTask p) (st0 P)) in
+  let s1 := snd (create [] (FTask p) (st0 P)) in
+  no_unwind P n (start h s1) -> c_mode (run P n (start h s1)) = MRun t q ->
+  let s := c_st (run P n (start h s1)) in
+  forall rest, tasks s = t :: rest -> forall u c, In (u, c) (lower s rest) -> reach s u t.
+Proof. exact layer_owners_await_tree. Qed.
+Print Assumptions C07_layer_owners_await.
+
+(* T3 *)
+Theorem C07_contexts_nest_lifo : forall P, pointwise P -> forall p, tree p -> wn [] p -> forall n,
+  let h := fst (create [] (FTask p) (st0 P)) in
+  let s1 := snd (create [] (FTask p) (st0 P)) in
+  no_unwind P n (start h s1) ->
+  exists l, layers (c_st (run P (S n) (start h s1))) = layers (c_st (run P n (start h s1))) ++ l \/
+            layers (c_st (run P n (start h s1))) = layers (c_st (run P (S n) (start h s1))) ++ l.
+Proof. exact contexts_nest_lifo_tree. Qed.
+Print Assumptions C07_contexts_nest_lifo.
+
+(* the save-and-restore invariant *)
+Theorem C07_saved_values : forall P, pointwise P -> forall p, tree p -> wn [] p -> forall n,
+  let h := fst (create [] (FTask p) (st0 P)) in
+  let s1 := snd (create [] (FTask p) (st0 P)) in
+  no_unwind P n (start h s1) ->
+  match c_mode (run P n (start h s1)) with
+  | MUnwind _ | MStuck | MDone _ => True
+  | _ =>
+    let s := c_st (run P n (start h s1)) in
+    let init := fun x => var_get x s1 in
+    (forall x, var_get x s = apply_l init (layers s) x) /\
+    (forall pre t cid var v post, layers s = pre ++ (t, COverride cid var v) :: post ->
+       ci_old (ci_get (t, cid) s) = apply_l init pre var) /\
+    NoDup (map lkey (layers s))
+  end.
+Proof. exact saved_values_tree. Qed.
+Print Assumptions C07_saved_values.
+
+(* non-vacuity: a parent with two nested overrides of variable 0 awaits a child, which overrides it again
+   and blocks on a batch item, and a sibling, which opens an AsyncContext and another override.
+   Step 12: the child's body runs and reads 30 (its own override over the parent's 20 over 10);
+   step 21: the sibling runs while the child is blocked - the child's layer is gone, the sibling reads its
+   own 40 over the parent's layers; step 28 is the flush point with the parent and the child suspended
+   inside their with-blocks: the variable is back to its initial value; step 47: done. *)
+Definition c07_fin (o : outcome) : prog := match o with Ok v => Ret v | Err e => Raise e end.
+Definition c07_child : prog :=
+  Enter (COverride 1 0 (VInt 30))
+    (Yield (YLeaf (LNew (FItem 0 1 (ASet (VInt 5)))))
+       (fun o => Exit (COverride 1 0 (VInt 30)) (c07_fin o))).
+Definition c07_sibling : prog :=
+  Enter (CAsync 7 NoFault) (Enter (COverride 3 0 (VInt 40))
+    (Exit (COverride 3 0 (VInt 40)) (Exit (CAsync 7 NoFault) (Ret (VInt 1))))).
+Definition c07_demo : prog :=
+  Enter (COverride 1 0 (VInt 10)) (Enter (COverride 2 0 (VInt 20))
+    (Yield (YTuple [YLeaf (LNew (FTask c07_child)); YLeaf (LNew (FTask c07_sibling))])
+       (fun o => Exit (COverride 2 0 (VInt 20)) (Exit (COverride 1 0 (VInt 10)) (c07_fin o))))).
+
+Lemma c07_child_ok : tree c07_child /\ wn [] c07_child.
+Proof.
+  unfold c07_child. split.
+  - apply tree_enter; [reflexivity|]. apply tree_yield; [intros l [<-|[]]; repeat constructor|].
+    intros o. apply tree_exit; [reflexivity|]. destruct o; constructor.
+  - apply wn_enter; [intros []|]. cbn [app]. apply wn_yield; [intros q [E|[]]; discriminate|].
+    intros o. apply (wn_exit [] (COverride 1 0 (VInt 30))). destruct o; constructor.
+Qed.
+
+Lemma c07_sibling_ok : tree c07_sibling /\ wn [] c07_sibling.
+Proof.
+  unfold c07_sibling. split.
+  - repeat (first [apply tree_enter; [reflexivity|] | apply tree_exit; [reflexivity|]]). constructor.
+  - apply wn_enter; [intros []|]. cbn [app]. apply wn_enter; [cbn; intros [E|[]]; discriminate|]. cbn [app].
+    apply (wn_exit [CAsync 7 NoFault] (COverride 3 0 (VInt 40))). apply (wn_exit [] (CAsync 7 NoFault)). constructor.
+Qed.
+
+Lemma c07_demo_ok : tree c07_demo /\ wn [] c07_demo.
+Proof.
+  unfold c07_demo. split.
+  - apply tree_enter; [reflexivity|]. apply tree_enter; [reflexivity|]. apply tree_yield.
+    + intros l Hl. cbn in Hl. destruct Hl as [<-|[<-|[]]]; constructor; constructor; [apply c07_child_ok|apply c07_sibling_ok].
+    + intros o. apply tree_exit; [reflexivity|]. apply tree_exit; [reflexivity|]. destruct o; constructor.
+  - apply wn_enter; [intros []|]. cbn [app]. apply wn_enter; [cbn; intros [E|[]]; discriminate|]. cbn [app]. apply wn_yield.
+    + intros q Hq. cbn in Hq. destruct Hq as [E|[E|[]]]; inversion E; subst; [apply c07_child_ok|apply c07_sibling_ok].
+    + intros o. apply (wn_exit [COverride 1 0 (VInt 10)] (COverride 2 0 (VInt 20))).
+      apply (wn_exit [] (COverride 1 0 (VInt 10))). destruct o; constructor.
+Qed.
+
+Example C07_hypotheses_are_met :
+  let P := mkP [] 1000 false [] in
+  let h := fst (create [] (FTask c07_demo) (st0 P)) in
+  let s1 := snd (create [] (FTask c07_demo) (st0 P)) in
+  let st_at k := c_st (run P k (start h s1)) in
+  let keys k := map lkey (layers (st_at k)) in
+  tree c07_demo /\ wn [] c07_demo /\ no_unwind_b P 100 (start h s1) = true /\
+  c_mode (run P 100 (start h s1)) = MDone (Ok (VTuple [VInt 5; VInt 1])) /\
+  (* the child runs *)
+  (exists q, c_mode (run P 12 (start h s1)) = MRun [1] q) /\
+  keys 12%nat = [([0], 1); ([0], 2); ([1], 1)] /\ var_get 0 (st_at 12%nat) = VInt 30 /\
+  (* the sibling runs while the child is blocked on its batch item *)
+  (exists q, c_mode (run P 21 (start h s1)) = MRun [2] q) /\
+  keys 21%nat = [([0], 1); ([0], 2); ([2], 7); ([2], 3)] /\ var_get 0 (st_at 21%nat) = VInt 40 /\
+  computed [1] (st_at 21%nat) = false /\
+  (* a flush point with open with-blocks in suspended tasks *)
+  c_mode (run P 28 (start h s1)) = MAfterExec /\ computed h (st_at 28%nat) = false /\
+  var_get 0 (st_at 28%nat) = var_get 0 s1 /\
+  var_get 0 (st_at 100%nat) = var_get 0 s1.
+Proof.
+  split; [apply c07_demo_ok|]. split; [apply c07_demo_ok|]. vm_compute.
+  repeat match goal with |- _ /\ _ => split end; try reflexivity; eexists; reflexivity.
+Qed.
